@@ -16,6 +16,11 @@ func VerifC12_ValidDay() {
 	}
 	year := years[vrt.Choice("year", len(years))]
 	m, d := vrt.Uint32("month"), vrt.Uint32("day")
+	if year != 2024 {
+		// the other years (non-leap, century non-leap, century leap) are enumerated: the
+		// symbolic month/day queries through time.Date came back unknown for them
+		m, d = uint32(vrt.Choice("month-enumerated", 13)), uint32(vrt.Choice("day-enumerated", 32))
+	}
 	vrt.Assume(vrt.And(m <= 12, d <= 31)) // parseUint's upper bounds
 	err := checkValidDay(year, uint(m), uint(d))
 	valid := vrt.And(m >= 1, d >= 1)
